@@ -51,6 +51,9 @@ OPSETS = {
     "fragment_and_var_enum": "query QF($e: EVar) { qe(e: $e) { ...RF } }\nfragment RF on R { e5 nested { e3 } }\nfragment UnusedF on RN { e3 }\n",
     # more input-typed variables (with repeats) than there are input types in the schema
     "repeated_variables": "query QR(" + ", ".join(f"$v{c}: I1" for c in "abcdefg") + ") { " + " ".join(f"r{c}: q1(a: $v{c}) {{ id }}" for c in "abcdefg") + " }\n",
+    # an enum selected directly by an operation next to fragments that become classes; enums spread over several fragment classes
+    "direct_enum_plus_fragment": "query QD { q0 { e5 ...RId } }\nfragment RId on R { id }\n",
+    "enums_in_two_fragments": "query QT { q0 { ...RA ...RZ } }\nfragment RA on R { e5 }\nfragment RZ on R { nested { ...NZ } }\nfragment NZ on RN { e3 }\n",
     "last_input": None,  # filled per n: uses In
 }
 
